@@ -921,6 +921,10 @@ def call_pymethod(I, base, name, args, kwargs, node, fr):
             return NoneV()
         return Top("dict." + name)
     if isinstance(base, StrV):
+        if base.const is not None and name in ("startswith", "endswith") and args and isinstance(args[0], StrV) and args[0].const is not None:
+            return Num("b", const=getattr(base.const, name)(args[0].const))
+        if base.const is not None and name in ("lower", "upper", "strip") and not args:
+            return StrV(getattr(base.const, name)())
         return StrV()
     if isinstance(base, Tup):
         if name == "index":
